@@ -550,6 +550,26 @@ func (w *c19World) history(r *vfRand, nOps int) (h c19Hist) {
 		case k < 9:
 			h.Steps = append(h.Steps, c19Step{Kind: "advance",
 				Secs: vfPick(r, []int64{100, 500, 1800, 1900, 3600, 3700, 4000})})
+		case k == 9 && r.Chance(1, 2):
+			// A listed name is delisted and the entry for its own prefix goes:
+			// no other entry may go on carrying its verdict.
+			var listed []string
+			for _, n := range names {
+				for _, s := range cur {
+					if s == hex.EncodeToString(c19Sum(n)) {
+						listed = append(listed, n)
+					}
+				}
+			}
+			if len(listed) == 0 {
+				h.Steps = append(h.Steps, c19Step{Kind: "advance", Secs: 100})
+				break
+			}
+			n := vfPick(r, listed)
+			st := c19Step{Kind: "db", Del: []string{hex.EncodeToString(c19Sum(n))}}
+			cur = c19DBStrings(c19ChangeDB(c19Strs(cur...), nil, st.Del))
+			h.Steps = append(h.Steps, st, c19Step{Kind: "evict", Evict: []string{string(c19Sum(n)[:2])}})
+			i++
 		case k < 11:
 			// The service's database changes: names of the hosts (their parents
 			// included) get listed or delisted, foreign hashes come and go.
@@ -1408,6 +1428,17 @@ func TestVerifC19(t *testing.T) {
 				dbDel(hex.EncodeToString(other[:])), chk("good.org"), adv(3700), chk("good.org"), chk("good.org"),
 				dbAdd(hx("good.org")), chk("good.org"), chk("good.org")}},
 	)
+
+	// An entry holds the hashes of its own prefix only: the entry for the
+	// child's prefix (a foreign hash) must not go on blocking for the parent
+	// once the parent is delisted and its own entry is gone.
+	{
+		foreign := sha256.Sum256([]byte("foreign"))
+		copy(foreign[:2], c19Sum("www.evil.com")[:2])
+		prelude = append(prelude, c19Hist{Suffix: sb, DB: c19Strs(hex.EncodeToString(foreign[:]), hx("evil.com")),
+			Steps: []c19Step{chk("www.evil.com"), chk("www.evil.com"), evict("evil.com"), dbDel(hx("evil.com")),
+				chk("www.evil.com"), chk("www.evil.com"), chk("evil.com")}})
+	}
 
 	// ---- Round 4: the usage order of the library cache.  Names with a chain
 	// of one (x.com) store elements of 10 bytes; 45 bytes hold four of them.
